@@ -82,6 +82,19 @@ func (o *obSet) fail(construct, pos, detail string, path []string, facts ...stri
 	o.put(construct, pos, Violated, detail, path, facts)
 }
 
+// failErr reports a breach that rests on "the error of one of these calls is not known to be
+// nil here". When the analysis lost track of such an error (it is merged with other values
+// before it is tested) the verdict is Undecided, not Violated.
+func (o *obSet) failErr(construct, pos, detail string, path []string, calls []*ssa.Call, facts ...string) {
+	for _, c := range calls {
+		if errMerged(c) {
+			o.undecided(construct, pos, "cannot follow the error of "+calleeName(c.Common())+": it is merged with other values before it is tested (otherwise: "+detail+")")
+			return
+		}
+	}
+	o.fail(construct, pos, detail, path, facts...)
+}
+
 func (o *obSet) undecided(construct, pos, detail string, facts ...string) {
 	o.put(construct, pos, Undecided, detail, nil, facts)
 }
